@@ -258,7 +258,34 @@ def op_ctx(scope: str, *cmds: str) -> str:
     return f"accept {show_scope(ctx.tensor_shape_map)} reg={','.join(ctx.registered_tensor_dtypes.keys())}"
 
 
-HANDLERS = {"PARSE": op_parse, "EVAL": op_eval, "SHAPE": op_shape, "CHECK": op_check, "CTX": op_ctx}
+def op_use(shape: str) -> str:
+    """build the annotation, then use it on an array of matching rank with every identifier bound to 2"""
+    from dltype._lib._dltype_context import DLTypeContext
+
+    try:
+        a = dltype.TensorTypeBase(opt_shape(shape))
+    except Exception as e:  # noqa: BLE001
+        return exc_line(e)
+    names = []
+    for d in a.expected_shape:
+        for t in d.parsed_expression:
+            if isinstance(t, str) and t not in names:
+                names.append(t)
+    ctx = DLTypeContext()
+    ctx.tensor_shape_map = {n: 2 for n in names}
+    rank = len(a.expected_shape) - (1 if a.multiaxis_index is not None else 0)
+    t = make_tensor("0:float32", (2,) * rank)
+    try:
+        ctx.add("x", (t,), (a,))
+        ctx.assert_context()
+    except dltype.DLTypeError as e:
+        return "reject " + show_report(e).split(" ")[1]
+    except Exception as e:  # noqa: BLE001
+        return "pyexc " + type(e).__name__
+    return "accept"
+
+
+HANDLERS = {"USE": op_use, "PARSE": op_parse, "EVAL": op_eval, "SHAPE": op_shape, "CHECK": op_check, "CTX": op_ctx}
 
 
 def handle(line: str) -> str:
